@@ -529,6 +529,9 @@ class Interp:
             return self.contracts[f](self, list(args), kwargs)
         if f in self.models:
             return self.models[f](self, list(args), kwargs)
+        pm = getattr(f, "_pyvc_model", None)
+        if pm is not None and not self.all_concrete(args, kwargs):
+            return pm(self, list(args), kwargs)
         if isinstance(f, functools.partial):
             return self.call(f.func, list(f.args) + list(args), {**f.keywords, **kwargs})
         if self.is_interpretable(f) and f not in self.native_ok:
@@ -553,6 +556,8 @@ class Interp:
     def native(self, f, args, kwargs):
         try:
             return f(*args, **kwargs)
+        except (Raised, Unsupported, Infeasible, ReturnEx, BreakEx, ContinueEx):
+            raise                # interpreter control flow coming out of a model closure
         except Exception as e:   # real exception of a concrete call becomes an outcome
             raise Raised(ExcVal(type(e), e.args))
 
@@ -585,7 +590,19 @@ class Interp:
         a0 = self.force(args[0])
         args = [a0] + list(args[1:])
         t = self.pytype_of(a0)
+        # registrations made during this symbolic execution (ghost dispatch registry) take precedence
+        reg = self.st.ghost.get("registry_map", {})
+        impl = None
+        for base in t.__mro__:
+            if (id(dm.sdm), base) in reg:
+                impl = reg[(id(dm.sdm), base)]
+                break
+        if impl is not None:
+            return self.call(impl, args, kwargs)       # a bound method: bound to the *registering* instance
         impl = dm.sdm.dispatcher.dispatch(t)
+        if isinstance(impl, types.MethodType):
+            # a bound method left in the real registry by an earlier native call in this process
+            return self.call(impl.__func__, [dm.obj] + args, kwargs)
         return self.call(impl, [dm.obj] + args, kwargs)
 
     def bind_params(self, node, defaults, kwdefaults, args, kwargs, env):
@@ -636,6 +653,16 @@ class Interp:
                         pass
         else:
             defaults, kwdefaults = clo.defaults, clo.kwdefaults
+        if clo.real is not None and "." in clo.real.__qualname__:
+            # defining class, for zero-argument super()
+            o = clo.module
+            try:
+                for part in clo.real.__qualname__.split(".")[:-1]:
+                    o = getattr(o, part)
+                if isinstance(o, type):
+                    env.vars["__defclass__"] = o
+            except AttributeError:
+                pass
         self.bind_params(node, defaults, kwdefaults, args, kwargs, env.vars)
         self.call_depth += 1
         if self.call_depth > 60:
@@ -674,6 +701,15 @@ class Interp:
             if name == "__class__":
                 return o.cls
             raise Unsupported(f"exception attribute {name}")
+        if isinstance(o, DispatchMethod):
+            if name == "register":
+                def register(cls, func=None, **kw):
+                    func = kw.get("method", func)
+                    self.st.ghost["registry"].append((o.name, getattr(cls, "__name__", str(cls)), getattr(getattr(func, "func", None), "__name__", None)))
+                    self.st.ghost.setdefault("registry_map", {})[(id(o.sdm), cls)] = func
+                    return func
+                return register
+            raise Unsupported(f"singledispatchmethod attribute {name}")
         if isinstance(o, Closure):
             if name == "__name__":
                 return o.__name__
